@@ -499,9 +499,10 @@ def run_property(pid, tier, queries, level='model_checking', assumptions=(), tru
         'known_findings_reconfirmed': len(set(known_hits)),
         'inconclusive_queries': [r['query'] for r in inconclusive],
     }
-    os.makedirs(os.path.join(VERIF, 'evidence'), exist_ok=True)
+    evdir = os.environ.get('VERIF_EVIDENCE_DIR') or os.path.join(VERIF, 'evidence')  # mutant runs write elsewhere
+    os.makedirs(evdir, exist_ok=True)
     evname = pid + ('.partial' if partial else '') + '.json'
-    with open(os.path.join(VERIF, 'evidence', evname), 'w') as f:
+    with open(os.path.join(evdir, evname), 'w') as f:
         json.dump(ev, f, indent=1)
     if not keep:
         shutil.rmtree(root, ignore_errors=True)
